@@ -362,7 +362,9 @@ def judge15 (items : List Item) (rest : List String) (eds : List Ex.Ed) (st0 : S
          | some next =>
            let (loc, cmd, arg) := splitCmd ln
            let c := str cmd
-           if isSingle ln && (c == "g" || c == "v" || c == "g!") then
+           -- the reference starts from the model's state before the command: usable when it holds the text the
+           -- implementation had (the two may already have parted, or part at this very command)
+           if isSingle ln && (c == "g" || c == "v" || c == "g!") && ((ed.lb.map (fun lb => lb.lines.flatten)).getD []) == prev.text then
              match ExGlob.refGlob { ed with out := [], msg := [], input := ed.input.drop 1 } loc cmd arg with
              | none => go f (i + 1) next none errs v
              | some (_, edr, visits) =>
@@ -433,7 +435,7 @@ def judge (mode : Nat) (kv : KV) : Verdict :=
               let j04' := if mode == 4 then judge04Step j04 prev next ln else j04
               (next, j06', e14 ++ e, jb', lp, j04'))
         (st0, init06, [], initB, [], ({} : J04))
-      let (e15, visits) := if mode == 15 && base.diffs.isEmpty then judge15 items rest mrun.eds st0 else ([], 0)
+      let (e15, visits) := if mode == 15 then judge15 items rest mrun.eds st0 else ([], 0)
       let sf := if mode == 6 then j06.errs else if mode == 14 || mode == 16 then e14 else if mode == 4 then j04.errs else if mode == 15 then e15 else jb.errs
       { base with specfails := (sf.take 3).map (fun s => (s.take 500).toString),
                   tags := base.tags ++ (if visits ≥ 2 then ["multivisit"] else []) }
